@@ -22,12 +22,13 @@ import (
 )
 
 type params struct {
-	Stakes  []int64 `json:"stakes"`
-	NChains int     `json:"chains"`
-	Steps   int     `json:"steps"`
-	Profile string  `json:"profile"`  // mixed | sale | direct | churn
-	GovReal bool    `json:"gov_real"` // first configuration through a real governance round
-	Hostile bool    `json:"hostile"`  // end the history with a sale claim carrying a hostile amount
+	Stakes   []int64 `json:"stakes"`
+	NChains  int     `json:"chains"`
+	Steps    int     `json:"steps"`
+	Profile  string  `json:"profile"`  // mixed | sale | direct | churn
+	GovReal  bool    `json:"gov_real"` // first configuration through a real governance round
+	Hostile  bool    `json:"hostile"`  // end the history with a sale claim carrying a hostile amount
+	Reimport bool    `json:"reimport"` // start with a genesis round trip of the module, then sales with one part never configured
 }
 
 func init() {
@@ -39,7 +40,7 @@ func init() {
 			"amounts pinned to funder balances +-1), activation (licensee / impostor / no licence / again), auth, legacy import, governance set funders/fee granter/sale contracts " +
 			"(incl. removal), funder balance moves, gifts, licensee spending, time travel (hours..years) and vesting probes; half-way every history runs one scripted authorisation sweep " +
 			"(everything but the sale contract in place; the claim's chain has no contract registered anywhere / only other chain references have / has one; one attested sale per boundary value " +
-			"of the contract-address field - empty, blank, 0x, zero address, case/prefix/padding variants, near misses, other chains' contract - plus an unknown chain reference, then the exact address as positive control). 'evaluations' counts field comparisons of the predicted " +
+			"of the contract-address field - empty, blank, 0x, zero address, case/prefix/padding variants, near misses, other chains' contract - plus an unknown chain reference, then the exact address as positive control). Every fourth history starts with the module's own genesis round trip (ExportGenesis -> JSON -> Validate -> InitGenesis in place, as after a restart from an exported genesis) followed by attested sales with funders or fee granter never configured; the round trip is also a rare step of the walk. 'evaluations' counts field comparisons of the predicted " +
 			"against the observed state plus invariant and vesting-probe checks. A distinct non-trivial case = (operation kind, predicted class, outcome, configuration bits, " +
 			"#open licences, #activated, funder-balance situation) seen with at least one licence or a configured sale path.",
 		Assumptions: []string{
@@ -49,13 +50,14 @@ func init() {
 			"an activation whose tx is signed by an account holding a fee allowance FROM the licensee counts as the licensee acting (Paloma's delegation rule, property C03); the workload creates no such allowances",
 			"which configured funder pays for a sale is not fixed by the statement: any configured funder whose balance covered the price is accepted",
 		},
-		Cases:       cases,
-		Run:         run,
+		Cases: cases,
+		Run:   run,
 		MinCounters: []string{"licence_direct_accepted", "licence_sale_accepted", "activation_accepted", "activation_again_rejected", "activation_impostor_rejected", "sale_rejected_nothing_changed", "vesting_probes", "escrow_checks",
 			"sale_contract_only_obstacle_empty_unconfigured_chain", "sale_contract_only_obstacle_empty_configured_chain", "sale_contract_only_obstacle_zero-address_unconfigured_chain",
-			"sale_contract_only_obstacle_unknown_chain_reference", "authz_sweep_controls_accepted"},
-		Workers:     12,
-		TimeoutS:    600,
+			"sale_contract_only_obstacle_unknown_chain_reference", "authz_sweep_controls_accepted",
+			"genesis_round_trips", "sales_after_round_trip_with_fee-granter_never_configured", "sales_after_round_trip_with_funders_never_configured"},
+		Workers:  12,
+		TimeoutS: 600,
 	})
 }
 
@@ -70,12 +72,13 @@ func cases(tier string, seed int64) []fw.Case {
 	var out []fw.Case
 	for i := 0; i < n; i++ {
 		p := params{
-			Stakes:  stakes[r.Intn(len(stakes))],
-			NChains: 1 + r.Intn(2),
-			Steps:   steps + r.Intn(steps/2),
-			Profile: profiles[i%len(profiles)],
-			GovReal: i%5 == 1,
-			Hostile: i%6 == 2,
+			Stakes:   stakes[r.Intn(len(stakes))],
+			NChains:  1 + r.Intn(2),
+			Steps:    steps + r.Intn(steps/2),
+			Profile:  profiles[i%len(profiles)],
+			GovReal:  i%5 == 1,
+			Hostile:  i%6 == 2,
+			Reimport: i%4 == 3,
 		}
 		out = append(out, fw.MkCase(fmt.Sprintf("h%03d-%s", i, p.Profile), r.Int63(), p))
 	}
